@@ -10,7 +10,7 @@ use swc_core::{
     ecma::{
         ast::*,
         atoms::Atom,
-        utils::{private_ident, quote_ident, quote_str},
+        utils::{is_valid_prop_ident, private_ident, quote_ident, quote_str},
         visit::{VisitMut, VisitMutWith, VisitWith},
     },
     plugin::errors::HANDLER,
@@ -1497,10 +1497,19 @@ fn jsx_member_to_expr(member: &JSXMemberExpr) -> Expr {
         JSXObject::Ident(ident) => Expr::Ident(ident.clone()),
         JSXObject::JSXMemberExpr(member) => jsx_member_to_expr(member),
     };
+    let prop = if is_valid_prop_ident(&member.prop.sym) {
+        MemberProp::Ident(member.prop.clone())
+    } else {
+        // `<a.b-c>`: not an identifier name, it has to be `a["b-c"]`
+        MemberProp::Computed(ComputedPropName {
+            span: member.prop.span,
+            expr: Box::new(Expr::Lit(Lit::Str(quote_str!(member.prop.sym.clone())))),
+        })
+    };
     Expr::Member(MemberExpr {
         span: member.span,
         obj: Box::new(obj),
-        prop: MemberProp::Ident(member.prop.clone()),
+        prop,
     })
 }
 
